@@ -107,7 +107,8 @@ impl Object for Font {
         dict.expect("Font", "Type", "Font", true)?;
         let base_font_primitive = dict.get("BaseFont");
         let base_font = match (base_font_primitive, subtype) {
-            (Some(name), _) => Some(t!(t!(name.clone().resolve(resolve)).into_name(), name)),
+            (Some(name), _) => Some(name.clone().resolve(resolve).and_then(|p| p.into_name()).map_err(|e|
+                PdfError::FromPrimitive { typ: "Font", field: "BaseFont", source: Box::new(e) })?),
             (None, FontType::Type3) => None,
             (_, _) => return Err(PdfError::MissingEntry {
                 typ: "Font",
@@ -115,10 +116,14 @@ impl Object for Font {
             })
         };
 
-        let encoding = dict.remove("Encoding").map(|p| Object::from_primitive(p, resolve)).transpose()?;
+        // both entries are optional: read them through Option (null, missing object, tolerant mode)
+        let encoding = match dict.remove("Encoding") {
+            Some(p) => Object::from_primitive(p, resolve)?,
+            None => None
+        };
 
         let to_unicode = match dict.remove("ToUnicode") {
-            Some(p) => Some(Object::from_primitive(p, resolve)?),
+            Some(p) => Object::from_primitive(p, resolve)?,
             None => None
         };
         let _other = dict.clone();
